@@ -447,6 +447,20 @@ def _topo_run(case, alt):
     env = Env(addrs=TOPO_UNIVERSE)
     rounds = []
     added = list(case["initial"])
+    forks = []          # (index into rounds at the time of the fork, read end of the pipe, child pid)
+    in_child = False
+    try:
+        return _topo_body(case, alt, env, rounds, added, forks)
+    except BaseException:
+        if forks and forks[-1] == "child":
+            os._exit(3)
+        raise
+
+
+def _topo_body(case, alt, env, rounds, added, forks):
+    import pickle
+    from vlib.harness import virtual_time
+    from pymemcache.exceptions import MemcacheError
     with virtual_time(env.clock):
         c = HashClient([TOPO_UNIVERSE[i] for i in case["initial"]], socket_module=env.net, retry_attempts=0, dead_timeout=60, retry_timeout=1,
                        ignore_exc=case["ignore_exc"], use_pooling=case["pooled"], timeout=1, default_noreply=False)
@@ -463,6 +477,22 @@ def _topo_run(case, alt):
                         s.down = None
             elif ev[0] == "adv":
                 env.clock.advance(ev[1])
+            elif ev[0] == "fork":
+                # the process forks (a pre-forking server, multiprocessing): the child goes on with the client object it
+                # inherited, and for the same events it must send every key where the parent sends it
+                if forks and forks[-1] == "child":
+                    continue
+                sys.stdout.flush()
+                sys.stderr.flush()
+                rd, wr = os.pipe()
+                pid = os.fork()
+                if pid == 0:
+                    os.close(rd)
+                    forks.append((len(rounds), wr))
+                    forks.append("child")
+                else:
+                    os.close(wr)
+                    forks.append((len(rounds), rd, pid))
             else:
                 marks = [len(s.log) for s in env.servers]
                 errs = []
@@ -488,6 +518,22 @@ def _topo_run(case, alt):
                 except Exception as e:  # noqa: BLE001
                     raise Violation(["topology", "internal-error", type(e).__name__], "get_many raised %r" % (e,))
                 rounds.append((where, sorted(set(errs))))
+        if forks and forks[-1] == "child":
+            at, wr = forks[-2]
+            with os.fdopen(wr, "wb") as f:
+                f.write(pickle.dumps(rounds[at:]))
+            os._exit(0)
+        for at, rd, pid in forks:
+            with os.fdopen(rd, "rb") as f:
+                data = f.read()
+            os.waitpid(pid, 0)
+            if not data:
+                raise Violation(["topology", "forked-child-failed"], "the forked child did not complete the history (an exception escaped in it)")
+            theirs = pickle.loads(data)
+            for j, (x, y) in enumerate(zip(rounds[at:], theirs)):
+                if x != y:
+                    raise Violation(["topology", "forked-child-differs"], "traffic round %d after the fork: the parent sent keys to %r (errors %r), the forked child to %r (errors %r)"
+                                    % (j, x[0], x[1], y[0], y[1]))
         c.close()
     return rounds, added
 
@@ -523,7 +569,7 @@ def topology_strategy(tier):
                    st.tuples(st.just("down"), st.integers(0, len(TOPO_UNIVERSE) - 1), st.sampled_from(["refused", "timeout", "reset-recv"])),
                    st.tuples(st.just("up"), st.integers(0, len(TOPO_UNIVERSE) - 1)),
                    st.tuples(st.just("adv"), st.sampled_from([1.5, 30, 61])),
-                   st.tuples(st.just("t")), st.tuples(st.just("t")))
+                   st.tuples(st.just("t")), st.tuples(st.just("t")), st.tuples(st.just("t")), st.tuples(st.just("fork")))
     return st.fixed_dictionaries({"initial": st.lists(st.integers(0, len(TOPO_UNIVERSE) - 1), min_size=1, max_size=4, unique=True),
                                   "events": st.lists(ev, min_size=1, max_size=12), "ignore_exc": st.booleans(), "pooled": st.booleans()})
 
@@ -544,6 +590,13 @@ def topology_cases(tier, seed):
             for late in ((), (4,)):
                 evs = [("add", i, 1 + (i + len(late)) % 4) for i in late] + [("down", i, "refused") for i in downs] + [("t",), ("t",), ("adv", 61), ("up", None), ("t",), ("t",)]
                 yield {"initial": [0, 1, 2, 3], "events": evs, "ignore_exc": ie, "pooled": bool(sum(downs) % 2)}
+    # the process forks at every point of an outage; parent and child go on with the same object
+    for target in (0, 2, 3):
+        for when in range(6):
+            for ie in (False, True):
+                evs = [("t",), ("down", target, "refused"), ("t",), ("adv", 1.5), ("t",), ("up", target), ("t",), ("adv", 30), ("t",)]
+                evs.insert(1 + when, ("fork",))
+                yield {"initial": [0, 1, 2, 3], "events": evs, "ignore_exc": ie, "pooled": bool((target + when) % 2)}
     for sp in (0, 1, 2, 3, 4):
         for ie in (False, True):
             for kind in ("refused", "timeout", "reset-recv"):
